@@ -31,11 +31,34 @@ pub struct Blk {
     pub generation: u32,
     /// the byte pattern the harness wrote: pattern(pat.0, pat.1, pat.2 + offset)
     pub pat: (u64, u32, usize),
+    /// false: the buffer of a growable vector (its contents are the vector's elements, checked separately)
+    pub chk: bool,
+}
+
+/// a live growable vector (BumpVec) and the element tags the harness put into it
+pub struct VecEntry {
+    /// never dropped implicitly: the handle it borrows may be gone by the time the interpreter forgets it
+    pub obj: std::mem::ManuallyDrop<Box<dyn VecOps>>,
+    pub tags: Vec<u8>,
+    pub esz: usize,
+    pub eal: usize,
+}
+
+fn vtag(id: u64, i: usize) -> u8 {
+    1 + ((id as usize * 37 + i * 13) % 250) as u8
+}
+
+fn vec_expected(tags: &[u8], esz: usize) -> Vec<u8> {
+    let mut out = Vec::with_capacity(tags.len() * esz);
+    for &t in tags {
+        out.extend(std::iter::repeat(t).take(esz));
+    }
+    out
 }
 
 impl Blk {
     fn new(id: u64, addr: usize, sz: usize, al: usize, generation: u32) -> Blk {
-        Blk { addr, sz, al, generation, pat: (id, generation, 0) }
+        Blk { addr, sz, al, generation, pat: (id, generation, 0), chk: true }
     }
     fn byte(&self, off: usize) -> u8 {
         pattern(self.pat.0, self.pat.1, self.pat.2 + off)
@@ -85,6 +108,7 @@ pub struct Ctx<'b> {
     pub claimed: Vec<(usize, *const (dyn ScopeOps + 'static))>,
     pub depth: usize,
     pub last_freed: Option<(u64, usize)>,
+    pub vecs: BTreeMap<u64, VecEntry>,
 }
 
 fn pattern(id: u64, generation: u32, off: usize) -> u8 {
@@ -142,6 +166,27 @@ fn chunks_json(cs: &[ChunkSnap]) -> Value {
     Value::Array(cs.iter().map(|c| json!([c.start, c.size, c.lo, c.hi, c.pos, c.allocated, c.remaining, c.capacity])).collect())
 }
 
+/// what a vector reports about itself after a step
+fn vec_obs(o: &mut serde_json::Map<String, Value>, vc: &dyn VecOps, esz: usize) {
+    let (addr, cap) = (vc.addr(), vc.cap());
+    o.insert("vaddr".into(), json!(addr));
+    o.insert("vlen".into(), json!(vc.len()));
+    o.insert("vcap".into(), json!(cap));
+    o.insert("vesz".into(), json!(esz));
+    // the only memory the step may write besides chunk headers: the vector's own buffer
+    o.insert("wlo".into(), json!(addr));
+    o.insert("whi".into(), json!(addr + cap * esz));
+}
+
+/// the buffer of a vector is a live block of the arena (not pattern-filled: it holds the vector's elements)
+fn vec_block(ctx: &mut Ctx<'_>, id: u64, vc: &dyn VecOps, esz: usize, eal: usize) {
+    if vc.cap() > 0 {
+        ctx.blocks.insert(id, Blk { addr: vc.addr(), sz: vc.cap() * esz, al: eal, generation: 0, pat: (id, 0, 0), chk: false });
+    } else {
+        ctx.blocks.remove(&id);
+    }
+}
+
 impl<'b> Ctx<'b> {
     fn via(&self, action: &str) -> &'static str {
         // entry-point variant -> which public entry point carries which action
@@ -164,12 +209,19 @@ impl<'b> Ctx<'b> {
     }
 
     fn record_snap(&mut self, i: usize, snap: Option<(Snap, usize)>, mut o: serde_json::Map<String, Value>) {
+        // fields that only successful calls produce get neutral defaults, so that the contract clauses can be evaluated
+        // on every record whatever the code under test did (a refused call has no address, length or contents)
+        for (k, d) in [("addr", json!(0)), ("len", json!(0)), ("oaddr", json!(0)), ("content_ok", json!(true))] {
+            o.entry(k.to_string()).or_insert(d);
+        }
         let step = &self.steps[i];
         let exp = &step["exp"];
         // liveness comes from the model: prune the block table to exp.live
         if let Some(live) = exp.get("live").and_then(|l| l.as_array()) {
             let keep: Vec<u64> = live.iter().filter_map(|x| x.as_u64()).collect();
             self.blocks.retain(|id, _| keep.contains(id));
+            // vectors that died with a frame / checkpoint are forgotten (never dropped: their handle may be gone)
+            self.vecs.retain(|id, _| keep.contains(id));
         }
         let r = region();
         // what changed in the whole region during the step (before the harness refills anything)
@@ -178,7 +230,7 @@ impl<'b> Ctx<'b> {
         let mut damaged = Vec::new();
         let fresh = o.get("_fresh").and_then(|x| x.as_u64());
         for (id, blk) in self.blocks.iter() {
-            if Some(*id) == fresh {
+            if Some(*id) == fresh || !blk.chk {
                 continue;
             }
             let mem = unsafe { std::slice::from_raw_parts(r.real(blk.addr), blk.sz) };
@@ -199,6 +251,17 @@ impl<'b> Ctx<'b> {
             }
         }
         o.remove("_fresh");
+        // every live vector still holds exactly the elements the harness put into it
+        let mut vbad = Vec::new();
+        for (id, ve) in self.vecs.iter_mut() {
+            let got = ve.obj.bytes();
+            if got != vec_expected(&ve.tags, ve.esz) {
+                vbad.push(*id);
+                // report once: continue from what is there now
+                ve.tags = got.chunks(ve.esz.max(1)).map(|c| c[0]).collect();
+            }
+        }
+        o.insert("vbad".into(), json!(vbad));
         if let Some((snap, min_align)) = snap {
             o.insert("chunks".into(), chunks_json(&snap.chunks));
             o.insert("cur".into(), json!(snap.cur));
@@ -518,6 +581,13 @@ pub fn exec(sc: &mut dyn ScopeOps, ctx: &mut Ctx<'_>) -> Flow {
                             std::panic::panic_any(UnwindMarker);
                         }
                     }),
+                    "bmws" => sc.with_bmws(u(&args, "n"), &mut |inner| {
+                        ctx.record(i, Some(inner), Ctx::obs("ok"));
+                        flow = exec(inner, ctx);
+                        if let Flow::Exit { unwind: true } = flow {
+                            std::panic::panic_any(UnwindMarker);
+                        }
+                    }),
                     other => panic!("unknown frame kind {other}"),
                 }));
                 if kind == "claim" {
@@ -609,6 +679,177 @@ pub fn exec(sc: &mut dyn ScopeOps, ctx: &mut Ctx<'_>) -> Flow {
                 o.insert("via".into(), json!(via));
                 ctx.record(i, Some(sc), o);
             }
+            "fmt_mut" => {
+                ctx.pc += 1;
+                let cstr = b(&args, "cstr");
+                let pieces: Vec<Vec<u8>> = args["pieces"]
+                    .as_array()
+                    .map(|a| a.iter().enumerate().map(|(k, l)| vec![b'a' + ((k * 5 + i) % 26) as u8; l.as_u64().unwrap_or(0) as usize]).collect())
+                    .unwrap_or_default();
+                let via = ctx.variant;
+                let r = catch_unwind(AssertUnwindSafe(|| sc.fmt_mut(&pieces, cstr, via)));
+                let mut o = match r {
+                    Ok(Ok((addr, bytes))) => {
+                        let mut o = Ctx::obs("ok");
+                        let addr = if bytes.is_empty() { 0 } else { addr };
+                        o.insert("addr".into(), json!(addr));
+                        o.insert("len".into(), json!(bytes.len()));
+                        let mut expect: Vec<u8> = pieces.concat();
+                        if cstr {
+                            expect.push(0);
+                        }
+                        o.insert("content_ok".into(), json!(bytes == expect));
+                        let id = u(&args, "id") as u64;
+                        if id != 0 {
+                            ctx.blocks.insert(id, Blk::new(id, addr, bytes.len(), 1, 0));
+                            o.insert("_fresh".into(), json!(id));
+                        }
+                        o
+                    }
+                    Ok(Err(())) => Ctx::obs("err"),
+                    Err(e) => {
+                        let mut o = Ctx::obs("panic");
+                        o.insert("msg".into(), json!(panic_msg(&e)));
+                        o
+                    }
+                };
+                o.insert("via".into(), json!(via));
+                ctx.record(i, Some(sc), o);
+            }
+            "vec_new" => {
+                ctx.pc += 1;
+                let (esz, eal, c0) = (u(&args, "esz"), u(&args, "eal"), u(&args, "cap"));
+                let wrap = Wrap::parse(s(&args, "wrap"));
+                region().fail_next.set(b(&args, "fail"));
+                let r = catch_unwind(AssertUnwindSafe(|| sc.vec_new(esz, eal, c0, wrap)));
+                region().fail_next.set(false);
+                let mut o = match r {
+                    Ok(Ok(bx)) => {
+                        // the vector borrows the handle (shared); the model guarantees that it is gone (dropped, finalised
+                        // or forgotten) before the handle is borrowed exclusively or its frame ends
+                        let bx: Box<dyn VecOps + 'static> = unsafe { std::mem::transmute::<Box<dyn VecOps + '_>, Box<dyn VecOps + 'static>>(bx) };
+                        let mut o = Ctx::obs("ok");
+                        let id = u(&args, "id") as u64;
+                        vec_obs(&mut o, &*bx, esz);
+                        vec_block(ctx, id, &*bx, esz, eal);
+                        ctx.vecs.insert(id, VecEntry { obj: std::mem::ManuallyDrop::new(bx), tags: Vec::new(), esz, eal });
+                        o
+                    }
+                    Ok(Err(())) => Ctx::obs("err"),
+                    Err(e) => {
+                        let mut o = Ctx::obs("panic");
+                        o.insert("msg".into(), json!(panic_msg(&e)));
+                        o
+                    }
+                };
+                o.insert("via".into(), json!("vec"));
+                ctx.record(i, Some(sc), o);
+            }
+            "vec_extend" | "vec_shrink" | "vec_truncate" => {
+                ctx.pc += 1;
+                let id = u(&args, "id") as u64;
+                let mut o;
+                if let Some(mut ve) = ctx.vecs.remove(&id) {
+                    let (plen, pcap, oaddr) = (ve.obj.len(), ve.obj.cap(), ve.obj.addr());
+                    let k = u(&args, "k");
+                    let how = s(&args, "how").to_string();
+                    let keeps_len = how == "reserve" || how == "reserve_exact";
+                    let new_tags: Vec<u8> = match how.as_str() {
+                        "within_copy" | "within_clone" => ve.tags.iter().take(k).cloned().collect(),
+                        "resize" => vec![vtag(id, plen); k],
+                        _ => (0..k).map(|j| vtag(id, plen + j)).collect(),
+                    };
+                    region().fail_next.set(b(&args, "fail"));
+                    let r = catch_unwind(AssertUnwindSafe(|| -> Result<(), ()> {
+                        match a.as_str() {
+                            "vec_extend" => ve.obj.extend(&how, k, &new_tags, (ctx.variant == "panicking" || ctx.variant == "typed") && s(&exp, "res") == "ok"),
+                            "vec_shrink" => {
+                                ve.obj.shrink_to_fit();
+                                Ok(())
+                            }
+                            _ => {
+                                ve.obj.truncate(u(&args, "n"));
+                                Ok(())
+                            }
+                        }
+                    }));
+                    region().fail_next.set(false);
+                    match r {
+                        Ok(Ok(())) => {
+                            o = Ctx::obs("ok");
+                            if a == "vec_extend" && !keeps_len {
+                                ve.tags.extend(new_tags);
+                            }
+                            if a == "vec_truncate" {
+                                ve.tags.truncate(u(&args, "n"));
+                            }
+                        }
+                        Ok(Err(())) => o = Ctx::obs("err"),
+                        Err(e) => {
+                            o = Ctx::obs("panic");
+                            o.insert("msg".into(), json!(panic_msg(&e)));
+                        }
+                    }
+                    o.insert("oaddr".into(), json!(oaddr));
+                    o.insert("plen".into(), json!(plen));
+                    o.insert("pcap".into(), json!(pcap));
+                    vec_obs(&mut o, &**ve.obj, ve.esz);
+                    vec_block(ctx, id, &**ve.obj, ve.esz, ve.eal);
+                    ctx.vecs.insert(id, ve);
+                } else {
+                    o = Ctx::obs("skipped");
+                }
+                o.insert("via".into(), json!("vec"));
+                ctx.record(i, Some(sc), o);
+            }
+            "vec_drop" | "vec_into" => {
+                ctx.pc += 1;
+                let id = u(&args, "id") as u64;
+                let mut o;
+                if let Some(ve) = ctx.vecs.remove(&id) {
+                    let (plen, pcap, oaddr) = (ve.obj.len(), ve.obj.cap(), ve.obj.addr());
+                    let (esz, eal) = (ve.esz, ve.eal);
+                    let expect = vec_expected(&ve.tags, esz);
+                    let obj = std::mem::ManuallyDrop::into_inner(ve.obj);
+                    ctx.blocks.remove(&id);
+                    if a == "vec_drop" {
+                        let r = catch_unwind(AssertUnwindSafe(move || drop(obj)));
+                        o = Ctx::obs(if r.is_ok() { "ok" } else { "panic" });
+                        o.insert("wlo".into(), json!(0));
+                        o.insert("whi".into(), json!(0));
+                    } else {
+                        let r = catch_unwind(AssertUnwindSafe(move || obj.into_slice()));
+                        match r {
+                            Ok((addr, len, bytes)) => {
+                                o = Ctx::obs("ok");
+                                // an empty final slice is a dangling pointer: its address carries no information
+                                let addr = if len == 0 { 0 } else { addr };
+                                o.insert("addr".into(), json!(addr));
+                                o.insert("len".into(), json!(len * esz));
+                                o.insert("content_ok".into(), json!(bytes == expect && len == plen));
+                                o.insert("wlo".into(), json!(addr));
+                                o.insert("whi".into(), json!(addr + len * esz));
+                                if u(&args, "bid") != 0 && addr != 0 {
+                                    ctx.blocks.insert(id, Blk::new(id, addr, len * esz, eal, 1));
+                                    o.insert("_fresh".into(), json!(id));
+                                }
+                            }
+                            Err(e) => {
+                                o = Ctx::obs("panic");
+                                o.insert("msg".into(), json!(panic_msg(&e)));
+                            }
+                        }
+                    }
+                    o.insert("oaddr".into(), json!(oaddr));
+                    o.insert("plen".into(), json!(plen));
+                    o.insert("pcap".into(), json!(pcap));
+                    o.insert("vesz".into(), json!(esz));
+                } else {
+                    o = Ctx::obs("skipped");
+                }
+                o.insert("via".into(), json!("vec"));
+                ctx.record(i, Some(sc), o);
+            }
             "iter_mut" => {
                 ctx.pc += 1;
                 let (esz, eal, rev, hint, n) = (u(&args, "esz"), u(&args, "eal"), b(&args, "rev"), u(&args, "hint"), u(&args, "n"));
@@ -652,10 +893,10 @@ pub fn exec(sc: &mut dyn ScopeOps, ctx: &mut Ctx<'_>) -> Flow {
                 let mut o = Ctx::obs("ok");
                 if let Some(bk) = ctx.blocks.get(&id).cloned() {
                     // pure bookkeeping: from now on the two halves are separate allocations
-                    ctx.blocks.insert(id, Blk { addr: bk.addr, sz: at, al: bk.al, generation: bk.generation, pat: bk.pat });
+                    ctx.blocks.insert(id, Blk { addr: bk.addr, sz: at, al: bk.al, generation: bk.generation, pat: bk.pat, chk: true });
                     ctx.blocks.insert(
                         nid,
-                        Blk { addr: bk.addr + at, sz: bk.sz - at, al: bk.al, generation: bk.generation, pat: (bk.pat.0, bk.pat.1, bk.pat.2 + at) },
+                        Blk { addr: bk.addr + at, sz: bk.sz - at, al: bk.al, generation: bk.generation, pat: (bk.pat.0, bk.pat.1, bk.pat.2 + at), chk: true },
                     );
                     o.insert("addr".into(), json!(bk.addr + at));
                 } else {
@@ -745,7 +986,7 @@ pub fn exec(sc: &mut dyn ScopeOps, ctx: &mut Ctx<'_>) -> Flow {
                         if let (Some(bk), Some(addr)) = (blk.as_ref(), o.get("addr").and_then(|x| x.as_u64())) {
                             o.insert("oaddr".into(), json!(bk.addr));
                             if addr as usize == bk.addr {
-                                ctx.blocks.insert(id, Blk { addr: bk.addr, sz: new.size(), al: new.align(), generation: bk.generation, pat: bk.pat });
+                                ctx.blocks.insert(id, Blk { addr: bk.addr, sz: new.size(), al: new.align(), generation: bk.generation, pat: bk.pat, chk: true });
                             }
                         }
                     }
@@ -942,6 +1183,30 @@ fn run_prep(sc: &mut dyn ScopeOps, ctx: &mut Ctx<'_>) {
                     let mut o = match r {
                         Ok(Ok(())) => {
                             pushed.push(tag);
+                            Ctx::obs("ok")
+                        }
+                        Ok(Err(())) => Ctx::obs("err"),
+                        Err(e) => {
+                            let mut o = Ctx::obs("panic");
+                            o.insert("msg".into(), json!(panic_msg(&e)));
+                            o
+                        }
+                    };
+                    decorate(&mut o, pb.len(), pb.cap());
+                    let snap = pb.snapshot();
+                    ctx.record_snap(j, Some((snap, ma)), o);
+                }
+                "prep_extend" => {
+                    ctx.pc += 1;
+                    let pb = coll.as_mut().unwrap();
+                    let k = u(&jargs, "k");
+                    let tags: Vec<u8> = (0..k).map(|m| 1 + (((pushed.len() + m) * 7 + i * 13) % (if via == "string" { 100 } else { 250 })) as u8).collect();
+                    region().fail_next.set(b(&jargs, "fail"));
+                    let r = catch_unwind(AssertUnwindSafe(|| pb.extend(&tags)));
+                    region().fail_next.set(false);
+                    let mut o = match r {
+                        Ok(Ok(())) => {
+                            pushed.extend(tags);
                             Ctx::obs("ok")
                         }
                         Ok(Err(())) => Ctx::obs("err"),
